@@ -4,6 +4,7 @@ package c03
 
 import (
 	"fmt"
+	"slices"
 	"strings"
 	"testing"
 
@@ -134,6 +135,38 @@ func record(c Case, anyValid bool) {
 	}
 }
 
+// spellings returns up to four other spellings of s that are equal to it under
+// Unicode case folding.
+func spellings(s string) (out []string) {
+	add := func(v string) {
+		if v != s && !slices.Contains(out, v) {
+			out = append(out, v)
+		}
+	}
+	flip := func(r rune) rune {
+		switch {
+		case 'a' <= r && r <= 'z':
+			return r - 32
+		case 'A' <= r && r <= 'Z':
+			return r + 32
+		}
+		return r
+	}
+	add(strings.Map(flip, s))
+	add(strings.ToLower(s))
+	// The last k / s (either case) replaced by its non-ASCII fold partner.
+	if i := strings.LastIndexAny(s, "kKsS"); i >= 0 {
+		rep := "\u212a"
+		if s[i] == 's' || s[i] == 'S' {
+			rep = "\u017f"
+		}
+		add(s[:i] + rep + s[i+1:])
+	}
+	// The other direction: a fold partner replaced by its ASCII letter.
+	add(strings.NewReplacer("\u212a", "k", "\u017f", "s").Replace(s))
+	return out
+}
+
 var nameProp = vp.Register(vp.Prop[Case]{
 	Kind: "c03.name", Base: 120000,
 	Gen: func(t *rapid.T) Case {
@@ -149,6 +182,23 @@ var nameProp = vp.Register(vp.Prop[Case]{
 			return err
 		}
 		record(c, anyValid)
+		// Histories: other spellings of the same name (letter case, fold-equal
+		// look-alikes) right after it and the name again after them.  Validity
+		// is not invariant under case folding (the ACE prefix is recognised
+		// case-sensitively by idna, look-alikes have longer A-labels), so a
+		// validator that remembers an earlier verdict for "the same" name
+		// answers wrongly here.
+		if len(s) < 600 {
+			for _, v := range spellings(s) {
+				if _, err = checkName(v); err != nil {
+					return fmt.Errorf("after validating %s: %w", vp.Q(s), err)
+				}
+				if _, err = checkName(s); err != nil {
+					return fmt.Errorf("after validating %s: %w", vp.Q(v), err)
+				}
+				vp.Class("history:another-spelling-validated-in-between")
+			}
+		}
 		if len(s) < 600 {
 			for _, l := range strings.Split(s, ".") {
 				if err = checkLabels(l); err != nil {
